@@ -1,3 +1,7 @@
 import XProofs.Properties.C13
 #print axioms Properties.C13.C13_single_argument
 #print axioms Properties.C13.C13_graph_untouched
+#print axioms Properties.C13.C13_equivalent
+#print axioms Properties.C13.C13_generated_consistent
+#print axioms Properties.C13.C13_listing
+#print axioms Properties.C13.C13_scope_test_sound
